@@ -28,6 +28,8 @@ m("sd-descriptor-limit", "ssz.descriptor", B+"phase0/deposit.go", "return ListTy
 m("sd-descriptor-type", "ssz.descriptor", B+"phase0/state.go", "{\"eth1_deposit_index\", Uint64Type},", "{\"eth1_deposit_index\", Uint32Type},", "phase0.BeaconState~BeaconStateType")
 m("sd-descriptor-order", "ssz.descriptor", B+"common/header.go", "{\"slot\", SlotType},\n\t{\"proposer_index\", ValidatorIndexType},\n\t{\"parent_root\", RootType},", "{\"slot\", SlotType},\n\t{\"parent_root\", RootType},\n\t{\"proposer_index\", ValidatorIndexType},", "BeaconBlockHeader")
 m("ss-bytelength", "ssz.size", B+"common/withdrawals.go", "return Uint64Type.TypeByteLength()*3 + Eth1AddressType.TypeByteLength()", "return Uint64Type.TypeByteLength()*2 + Eth1AddressType.TypeByteLength()", "common.Withdrawal", nth=1)
+m("ss-deltas-offset", "ssz.size", B+"common/deltas.go", "return 2*codec.OFFSET_SIZE + a.Rewards.ByteLength(spec)", "return codec.OFFSET_SIZE + a.Rewards.ByteLength(spec)", "common.Deltas.ByteLength")
+m("ss-deltas-field", "ssz.size", B+"common/deltas.go", "a.Rewards.ByteLength(spec) + a.Penalties.ByteLength(spec)", "a.Rewards.ByteLength(spec) + a.Rewards.ByteLength(spec)", "common.Deltas.ByteLength")
 m("ss-fixed-zero", "ssz.size", B+"common/general.go", "func (g *Checkpoint) FixedLength() uint64 {\n\treturn 8 + 32", "func (g *Checkpoint) FixedLength() uint64 {\n\treturn 0", "common.Checkpoint.FixedLength")
 m("ss-var-nonzero", "ssz.size", B+"phase0/attestation.go", "func (a *Attestation) FixedLength(*common.Spec) uint64 {\n\treturn 0", "func (a *Attestation) FixedLength(*common.Spec) uint64 {\n\treturn 228", "phase0.Attestation.FixedLength")
 m("se-elemsize", "ssz.elemsize", B+"phase0/voluntary_exit.go", "}, SignedVoluntaryExitType.TypeByteLength(), uint64(spec.MAX_VOLUNTARY_EXITS))", "}, VoluntaryExitType.TypeByteLength(), uint64(spec.MAX_VOLUNTARY_EXITS))", "phase0.VoluntaryExits.Deserialize")
@@ -105,6 +107,17 @@ m("gv-seen-reject", "gossip.verdict", G+"aggregate_and_proof.go", "return nil, G
 m("gv-accept-branch", "gossip.verdict", G+"sync_comm_subnet.go", "XX", "YY", "XX")
 # ---- bls
 m("bv-truncate", "bls.verify", G+"attestation.go", "if !blsu.Verify(blsPub, sigRoot[:], sig) {", "if !blsu.Verify(blsPub, sigRoot[:4], sig) {", "gossipval.ValidateAttestation.msg")
+m("bv-cond-sync", "bls.verify", B+"altair/sync_aggregate.go", "if !blsu.Eth2FastAggregateVerify(participantPubkeys, signingRoot[:], sig) {", "if len(participantPubkeys) > 0 && !blsu.Eth2FastAggregateVerify(participantPubkeys, signingRoot[:], sig) {", "altair.ProcessSyncAggregate.always")
+m("bv-cond-randao", "bls.verify", B+"phase0/randao.go", "if !blsu.Verify(blsPub, sigRoot[:], revealSig) {", "if epoch > 0 && !blsu.Verify(blsPub, sigRoot[:], revealSig) {", "phase0.ProcessRandaoReveal.always")
+m("fcc-pin-late", "fc.commit", "eth2/forkchoice/forkchoice.go", "\t\tfc.pin = nil\n\t\tfinSlot, _ := fc.spec.EpochStartSlot(finalized.Epoch)\n\t\tif err := fc.protoArray.OnPrune(ctx, finalized.Root, finSlot); err != nil {\n\t\t\treturn err\n\t\t}\n", "\t\tfinSlot, _ := fc.spec.EpochStartSlot(finalized.Epoch)\n\t\tif err := fc.protoArray.OnPrune(ctx, finalized.Root, finSlot); err != nil {\n\t\t\treturn err\n\t\t}\n\t\tfc.pin = nil\n", "ProtoForkChoice.UpdateJustified.pin")
+m("fcc-balances", "fc.commit", "eth2/forkchoice/forkchoice.go", "\tfc.balances = newBals\n\tfc.justified = justified", "\tfc.justified = justified", "ProtoForkChoice.updateJustified.balances")
+m("vn-balance", "validator.new", B+"altair/state.go", "bals.AppendBalance(balance)", "bals.AppendBalance(effBalance)", "altair.AddValidator.balance")
+m("vn-exit", "validator.new", B+"deneb/state.go", "ExitEpoch:                  common.FAR_FUTURE_EPOCH,", "ExitEpoch:                  common.GENESIS_EPOCH,", "deneb.AddValidator.validator")
+m("le-break", "loop.every", B+"altair/attester.go", "\t\tif flats[vi].Slashed {\n\t\t\tcontinue\n\t\t}\n\t\teffBal := flats[vi].EffectiveBalance\n\t\tprevFlag", "\t\tif flats[vi].Slashed {\n\t\t\tbreak\n\t\t}\n\t\teffBal := flats[vi].EffectiveBalance\n\t\tprevFlag", "altair.ComputeEpochAttesterData")
+m("le-break2", "loop.every", B+"phase0/registry.go", "\t\tif exit == common.FAR_FUTURE_EPOCH {\n\t\t\tcontinue\n\t\t}", "\t\tif exit == common.FAR_FUTURE_EPOCH {\n\t\t\tbreak\n\t\t}", "phase0.ComputeRegistryProcessData")
+m("th-len", "text.hex", B+"common/bls.go", "\tif len(text) != 96 {", "\tif len(text) != 98 {", "common.BLSPubkey.UnmarshalText")
+m("th-partial", "text.hex", B+"common/versioning.go", "\t_, err := hex.Decode(p[:], text)\n\treturn err\n}\n\nfunc (v Version) ToUint32", "\t_, err := hex.Decode(p[:2], text)\n\treturn err\n}\n\nfunc (v Version) ToUint32", "common.Version.UnmarshalText")
+m("th-prefix3", "text.hex", B+"common/kzg.go", "\t\ttext = text[2:]\n\t}\n\tif len(text) != 2*KZGCommitmentSize {", "\t\ttext = text[1:]\n\t}\n\tif len(text) != 2*KZGCommitmentSize {", "common.KZGCommitment.UnmarshalText")
 m("bv-domain", "bls.verify", B+"phase0/voluntary_exit.go", "common.GetDomain(state, common.DOMAIN_VOLUNTARY_EXIT,", "common.GetDomain(state, common.DOMAIN_DEPOSIT,", "phase0.ValidateVoluntaryExit.domain")
 m("bv-domain2", "bls.verify", B+"phase0/randao.go", "common.GetDomain(state, common.DOMAIN_RANDAO, epoch)", "common.GetDomain(state, common.DOMAIN_BEACON_PROPOSER, epoch)", "phase0.ProcessRandaoReveal.domain")
 m("bv-negation", "bls.verify", B+"capella/bls_to_execution.go", "if !blsu.Verify(pubKey, sigRoot[:], signature) {", "if blsu.Verify(pubKey, sigRoot[:], signature) {", "capella.ProcessBLSToExecutionChange.result")
